@@ -15,6 +15,7 @@ mod msgtext;
 mod fam_msg;
 mod fam_hs;
 mod fam_sess;
+mod interop;
 
 #[global_allocator]
 static GLOBAL: alloc::Counting = alloc::Counting;
@@ -53,6 +54,10 @@ fn exec(st: &mut State, toks: &[&str]) -> String {
         ["!amf.marker", m, tail] => fam_amf::marker(m.parse().unwrap_or(0), tail),
         ["!amf.adv", kind, n, kb] => fam_amf::adversarial(kind, n.parse().unwrap_or(0), kb.parse().unwrap_or(512)),
         ["note", ..] => "note".into(),
+        ["!interop", kind, cs_c, cs_s, win_c, win_s, seed, app, key, items] => {
+            let a = match (util::parse_bytes(app).and_then(|b| String::from_utf8(b).ok()), util::parse_bytes(key).and_then(|b| String::from_utf8(b).ok())) { (Some(a), Some(k)) => (a, k), _ => return "bad-op".into() };
+            interop::run(*kind == "pub", cs_c.parse().unwrap_or(0), cs_s.parse().unwrap_or(0), win_c.parse().unwrap_or(0), win_s.parse().unwrap_or(0), seed.parse().unwrap_or(0), &a.0, &a.1, items)
+        }
         _ => match fam_chunk::op(&mut st.chunk, toks) {
             Some(s) => s,
             None => match fam_msg::op(toks) {
@@ -89,7 +94,14 @@ fn main() {
         } else if st.dead {
             "dead".to_string()
         } else {
-            match catch_unwind(AssertUnwindSafe(|| exec(&mut st, &toks))) {
+            let base = alloc::begin();
+            let r = catch_unwind(AssertUnwindSafe(|| exec(&mut st, &toks)));
+            let peak = alloc::peak_over(base);
+            // C03/C19: no op may allocate more than a constant multiple of what it was given plus a few
+            // maximum-size messages (the adversarial AMF0 ops carry their own, tighter bound)
+            let bound = 64 * line.len() + 400 * 1024 * 1024;
+            match r {
+                Ok(s) if peak > bound && !line.starts_with("!amf.adv") => format!("{} ALLOC-EXCEEDED peak={}", s, peak),
                 Ok(s) => s,
                 Err(e) => {
                     st.dead = true;
